@@ -27,7 +27,7 @@ Has(h, n) == \E i \in 1..Len(h) : h[i][1] = n
 
 \* try_prepare: Accept-Encoding exactly when compression is allowed (field "compress" = 0 or 2 means allowed),
 \* Connection: close always, Accept / User-Agent defaults only when the caller supplied none
-CompressionAllowed(val) == ("compress" \notin Fields) \/ val.f["compress"] # 1
+CompressionAllowed(val) == ("compress" \notin Fields) \/ val.f["compress"] # 1   \* 1 = switched off
 PrepareHeaders(val) ==
   LET h1 == IF CompressionAllowed(val) THEN HSet(val.h, "accept-encoding", "gzip, deflate") ELSE val.h
       h2 == HSet(h1, "connection", "close")
@@ -40,7 +40,10 @@ PrepareHeaders(val) ==
 Live(st, o) == st[o] # NoObj
 OpNewSession(st, s)       == [st EXCEPT ![s] = Default]
 OpClone(st, s, t)         == [st EXCEPT ![t] = st[s]]
-OpSet(st, o, fld, v)      == [st EXCEPT ![o].f[fld] = v]
+\* two-valued settings: value 2 switches the setting back to its default (0)
+BoolFields == {"compress", "follow", "certs", "hosts"}
+Canon(fld, v) == IF fld \in BoolFields /\ v = 2 THEN 0 ELSE v
+OpSet(st, o, fld, v)      == [st EXCEPT ![o].f[fld] = Canon(fld, v)]
 OpHeader(st, o, n, v, ap) == [st EXCEPT ![o].h = IF ap THEN HAppend(@, n, v) ELSE HSet(@, n, v)]
 OpNewBuilder(st, s, b)    == [st EXCEPT ![b] = st[s]]
 OpPrepare(st, b)          == [st EXCEPT ![Prepared(b)] = [f |-> st[b].f, h |-> PrepareHeaders(st[b])], ![b] = NoObj]
